@@ -100,6 +100,20 @@ Definition go_shl (t : ity) (a n : Z) : res Z :=
 Definition go_and (t : ity) (a b : Z) : res Z := Val (wrap t (Z.land a b)).
 Definition go_or (t : ity) (a b : Z) : res Z := Val (wrap t (Z.lor a b)).
 
+(* var x [n]byte: a zeroed array; the translator admits such a variable only in the form x[:] *)
+Definition go_zero_array (n : Z) : list Z := repeat 0 (Z.to_nat n).
+
+(* binary.LittleEndian.PutUint64(b, v) for a uint64 v (0 <= v < 2^64): the bounds check `_ = b[7]` panics on a
+   slice shorter than 8, then b[i] = byte(v >> (8*i)) for i = 0..7; the rest of b is unchanged *)
+Fixpoint le_bytes_z (n : nat) (v : Z) : list Z :=
+  match n with
+  | O => nil
+  | S k => (v mod 256) :: le_bytes_z k (v / 256)
+  end.
+Definition go_put_le64 (l : list Z) (v : Z) : res (list Z) :=
+  if Z.of_nat (length l) <? 8 then Panic "index out of range"
+  else Val (le_bytes_z 8 v ++ skipn 8 l).
+
 Module GoNotations.
   Notation "x <- m ;; k" := (bind m (fun x => k)) (at level 61, m at next level, right associativity).
   Notation "' p <- m ;; k" := (bind m (fun p => k)) (at level 61, p pattern, m at next level, right associativity).
